@@ -137,7 +137,7 @@ def run(rep, repo, tier):
         'their std_portable.h twins, under the class invariant m_size <= N: every slot construct/destroy/assign and '
         'every byte access lies inside the inline storage, the invariant holds after every constructor and method, '
         'push/emplace refuse when full, resize clamps. Decides the capacity/bounds clauses for all states and all '
-        'argument values at N = 4 (code is uniform in N); content equality and exactly-once destruction are not decided here.')
+        'argument values at N = 4 (code is uniform in N); content equality is not decided here; element lifetimes are decided by the R-LIFE rules below.')
     rep.assumptions += ['iterator arguments of erase point into the container with first <= last <= end()',
                         'range constructor arguments delimit one array', 'N instantiated at 4']
     SV_INT = StructSpec('sv<int>', inv=['m_size >= 0', 'm_size <= %d' % N])
@@ -156,3 +156,5 @@ def run(rep, repo, tier):
     rep.floor('R-SVEC:invariant', 60)
     rep.floor('R-SVEC-TWIN:invariant', 50)
     rep.floor('R-SSTR:bounds', 3)
+    import c14_life
+    c14_life.run_life(rep, repo, tier)
